@@ -139,36 +139,63 @@ def r9_3(run):
     # outer diameter: repeated too, defaulting to the inner diameter
     run.ob("pipe|repeat|DO", "DO" in cols and "np.repeat" in str(cols["DO"]),
            "the outer diameter is repeated per section (defaulting to the inner diameter)", w)
-    # internal nodes: interpolation between the end junctions
+    # internal nodes: interpolation between the end junctions (whole-hook terms, arrnf)
+    from ..arrnf import ANF, C, FULL, base_of, contains, expect, key as tkey, match, show as tshow, walk
     fn = ix.lookup_method(pipe, "create_pit_node_entries")
     run.analysed(fn)
-    stores = {}
-    for n in own_walk(fn.node):
-        if isinstance(n, ast.Assign) and isinstance(n.targets[0], ast.Subscript) and U(n.targets[0].value) == "int_node_pit":
-            sl = n.targets[0].slice
-            if isinstance(sl, ast.Tuple):
-                stores[U(sl.elts[1])] = n.value
-    for colname in ("TINIT_NODE", "PINIT", "HEIGHT"):
-        v = stores.get(colname)
-        ok = isinstance(v, ast.Call) and callee_name(v) == "vinterp" and len(v.args) == 3
-        if ok:
-            a0, a1, a2 = [U(x).replace(" ", "") for x in v.args]
-            ok = a0 == "junction_pit[fj_nodes,%s]" % colname and a1 == "junction_pit[tj_nodes,%s]" % colname and a2 == "int_node_number"
-        run.ob("pipe|internal-nodes|%s-interpolated" % colname, ok,
-               "internal node %s is interpolated between the values of the from and to junction" % colname, run.where(fn, fn.node))
-    # vinterp itself: value_k = min + (max - min)/(n+1) * k
+    rn = ANF(ix, fn, options={"transient": False}).run()
     vi = ix.func("pandapipes.component_models.component_toolbox.vinterp")
-    src = {U(n.targets[0]): U(n.value).replace(" ", "") for n in own_walk(vi.node) if isinstance(n, ast.Assign)}
-    ok = src.get("intervals") == "(max_vals-min_vals)/(lengths+1)" and "+1" in src.get("counter", "") \
-        and U([n for n in ast.walk(vi.node) if isinstance(n, ast.Return)][0].value).replace(" ", "") == "np.repeat(min_vals,lengths)+steps*counter"
-    run.ob("vinterp|linear", ok, "vinterp returns min + (max-min)/(n+1) * k for k = 1..n", run.where(vi, vi.node))
+    ftc = lambda k: ("proj", ("call", ("attr", ("n", "cls"), "from_to_node_cols"), (), ()), k)
+    nint = ("call", ("attr", ("n", "cls"), "get_internal_node_number"), (("n", "net"),), ())
+    for colname in ("TINIT", "PINIT", "HEIGHT"):
+        colk = ("k", "idx_node." + colname)
+        st = [s_ for s_ in rn.stores() if len(s_.index) == 2 and s_.index[0] == FULL and s_.index[1] == colk]
+        ok = len(st) == 1
+        detail = None
+        if ok:
+            v = st[0].value
+            detail = tshow(v)[:200]
+            ok = v[0] == "call" and v[1] == ("f", vi.qualname) and len(v[2]) == 3
+            if ok:
+                m0 = match(("idx", ("?", "jp"), (("?", "f"), colk)), v[2][0])
+                m1 = match(("idx", ("?", "jp"), (("?", "t"), colk)), v[2][1])
+                ok = m0 is not None and m1 is not None and tkey(m0["jp"]) == tkey(m1["jp"]) \
+                    and contains(m0["f"], ftc(0)) and not contains(m0["f"], ftc(1)) \
+                    and contains(m1["t"], ftc(1)) and not contains(m1["t"], ftc(0)) and tkey(v[2][2]) == tkey(nint)
+        run.ob("pipe|internal-nodes|%s-interpolated" % colname, ok,
+               "internal node %s = vinterp(value at the from junction, value at the to junction, number of internal nodes)" % colname,
+               run.where(fn, fn.node), detail=detail)
+    # vinterp itself: value_k = a + (b - a)/(n+1) * k for k = 1..n, in the raw arguments a (first) and b (second)
+    run.analysed(vi)
+    ps = vi.params()
+    rv = ANF(ix, vi, param_alias=dict(zip(ps, ("a", "b", "n")))).run()
+    rets = rv.returns()
+    want = expect(ix, vi, "np.repeat(a, n) + np.repeat((b - a) / (n + 1), n) * (np.arange(n.sum()) - np.repeat(n.cumsum() - n, n) + 1)")
+    run.ob("vinterp|linear", len(rets) == 1 and tkey(rets[0].value) == tkey(want),
+           "vinterp(a, b, n) returns a + (b - a)/(n+1) * k for k = 1..n in its raw arguments (first argument at the from side)",
+           run.where(vi, vi.node), detail=tshow(rets[0].value)[:300] if rets else None)
     # section topology: from_nodes/to_nodes chains
-    src = [U(n).replace(" ", "") for n in own_walk(f.node) if isinstance(n, ast.Assign)]
-    ok = "from_nodes=np.insert(from_nodes,insert_places+1,pipe_nodes_idx)" in src and \
-        "to_nodes=np.insert(to_nodes,insert_places,pipe_nodes_idx)" in src and \
-        "insert_places=np.repeat(np.arange(len(from_nodes)),internal_node_number)" in src
+    rb = ANF(ix, f, options={"transient": False}).run()
+    FN, TN = ("k", "idx_branch.FROM_NODE"), ("k", "idx_branch.TO_NODE")
+    fs = [s_ for s_ in rb.stores() if len(s_.index) == 2 and s_.index[0] == FULL and s_.index[1] == FN]
+    ts_ = [s_ for s_ in rb.stores() if len(s_.index) == 2 and s_.index[0] == FULL and s_.index[1] == TN]
+    ok = len(fs) == 1 and len(ts_) == 1
+    if ok:
+        lk = "get_lookup(net, 'node', 'index')[cls.get_connected_node_type().table_name()]"
+        env = {"F0": expect(ix, f, "%s[net[cls.table_name()][cls.from_to_node_cols()[0]].values]" % lk),
+               "T0": expect(ix, f, "%s[net[cls.table_name()][cls.from_to_node_cols()[1]].values]" % lk)}
+        env["P"] = expect(ix, f, "np.repeat(np.arange(len(F0)), cls.get_internal_node_number(net))", env=env)
+        env["I"] = expect(ix, f, "np.arange(get_lookup(net, 'node', 'from_to')[cls.internal_node_name()][0], "
+                                 "get_lookup(net, 'node', 'from_to')[cls.internal_node_name()][1])")
+        wf = expect(ix, f, "np.insert(F0, P + 1, I)", env=env)
+        wt = expect(ix, f, "np.insert(T0, P, I)", env=env)
+
+        def arm(v):
+            return v[2] if v[0] == "ite" else v
+        ok = tkey(arm(fs[0].value)) == tkey(wf) and tkey(arm(ts_[0].value)) == tkey(wt)
     run.ob("pipe|section-chain", ok,
-           "sections are chained: internal node j is the to node of section j and the from node of section j+1", w)
+           "sections are chained: internal node j is the to node of section j and the from node of section j+1", w,
+           detail="%s / %s" % (tshow(fs[0].value)[:150], tshow(ts_[0].value)[:150]) if fs and ts_ else None)
     run.floor(13)
 
 
